@@ -198,6 +198,32 @@ def run(ctx):
                     judge_mutant(ctx, t, cls, b'\x05' + m, klass, True)
             judge_mutant(ctx, t, cls, b'\x04' + packed[1:], 'wrong-leading-byte', True)
             judge_mutant(ctx, t, cls, packed[1:], 'missing-leading-byte', False)
+    from rv.gen import corpus as C
+    for k, (label, texpr, t, v, src) in enumerate(C.typed_values()):
+        if ctx.mine(k) and T.packable(t):
+            ctx.count('corpus_values')
+            packed = judge(ctx, rng, t, v)
+            if isinstance(packed, bytes) and k % 3 == 0:
+                instr_agreement(ctx, t, v, packed)
+    # lambdas are packable whatever their argument and result types mention (operation, big_map, ticket, contract ...)
+    odd = [T.list_(T.OPERATION), T.OPERATION, T.big_map(T.NAT, T.STRING), T.ticket(T.NAT), T.contract(T.UNIT), T.pair(T.NAT, T.OPERATION),
+           T.option(T.ticket(T.STRING)), T.lambda_(T.UNIT, T.OPERATION)]
+    j = 0
+    for a in odd + [T.UNIT, T.NAT]:
+        for r in odd + [T.UNIT]:
+            for wrap in (lambda x: x, T.option, T.list_, lambda x: T.pair(T.NAT, x), lambda x: T.map_(T.STRING, x)):
+                j += 1
+                if not ctx.mine(j) or (a in (T.UNIT, T.NAT) and r == T.UNIT):
+                    continue
+                lt = T.lambda_(a, r)
+                t = wrap(lt)
+                code = rng.choice([[{'prim': 'FAILWITH'}], [{'prim': 'PUSH', 'args': [{'prim': 'string'}, {'string': 'no'}]}, {'prim': 'FAILWITH'}]])
+                v = {'lambda': code, 'option': ('Some', code), 'list': [code, code], 'pair': (7, code), 'map': [('k', code)]}[t[0]]
+                ctx.count('lambdas_over_unpackable_types')
+                packed = judge(ctx, rng, t, v)
+                if isinstance(packed, bytes) and j % 3 == 0:
+                    instr_agreement(ctx, t, v, packed)
+    ctx.require('lambdas_over_unpackable_types', 10)
     ctx.require('pack_calls', 100)
     ctx.require('unpack_calls', 50)
     ctx.require('mutants', 100)
